@@ -24,8 +24,9 @@ EDGE = [('edge:only-function-definitions', 'function f(a) -> a + 1; function g()
         ('edge:null-initialised-local-in-a-loop', 'function scan(n) -> begin let i = 0; while i < n do begin let seen = null; let count = 0; if i == 1 then begin seen <- i; count <- 5 end; print("~ ~ ~\\n", i, seen, count); i <- i + 1 end; i end; '
          'print("~\\n", scan(3)); let o = object begin function m(n) -> begin let j = 0; while j < n do begin let last = null; let flag = false; if j % 2 == 0 then begin last <- j; flag <- true end; print("~ ~ ~;", j, last, flag); j <- j + 1 end; j end end; print("~\\n", o.m(4))'),
         ('edge:while-body-starting-with-a-while', 'let i = 0; while i < 2 do begin while i < 1 do i <- i + 1; let j = 0; while j < 2 do begin while j < 1 do j <- j + 1; j <- j + 1 end; if i > 0 then while false do 0; i <- i + 1 end; print("~\\n", i)'),
-        ('edge:functions-without-a-block-that-declare-variables', 'function grid(n) -> array(n, array(n, 0)); function pick(c) -> if c then let y = 1 else let z = 2; function rows(n) -> array(n, begin let k = n; k end); '
-         'let o = object begin function row(n) -> array(n, begin n end); function both(c) -> if c then let y = 3 else let y = 4 end; print("~ ~ ~ ~ ~ ~ ~\\n", grid(2), pick(true), pick(false), rows(2), o.row(2), o.both(true), o.both(false))'),
+        ('edge:functions-without-a-block-that-declare-variables', 'function grid(n) -> array(n, array(n, 0)); function twice_plus(a) -> (let t = a * 2) + t; function pick(c) -> if c then let y = 1 else let z = 2; function rows(n) -> array(n, begin let k = n; k end); '
+         'let o = object begin function row(n) -> array(n, begin n end); function keep(a) -> (let u = a) + u; function both(c) -> if c then let y = 3 else let y = 4 end; '
+         'print("~ ~ ~ ~ ~ ~ ~ ~ ~\\n", grid(2), twice_plus(4), pick(true), pick(false), rows(2), o.row(2), o.keep(3), o.both(true), o.both(false))'),
         ('edge:field-and-method-of-one-name', 'let o = object begin let value = 42; function value() -> this.value; function m() -> 1; let m = 2 end; print("~ ~ ~ ~ ~\\n", o.value, o.value(), o.m, o.m(), o)')]
 
 
